@@ -137,7 +137,7 @@ inductive Ev where
   | tree (via : String) (t : Option T)      -- via ∈ parse | reparse | json | script | sreparse ; none = rejected
   | text (via : String) (s : String)        -- via ∈ fmt | sfmt | ptick
   | pipe (via : String) (r : Option (String × String))  -- DOT, property JSON ; none = no pipeline
-  | built                                    -- a tree was constructed directly (its value is the op itself)
+  | source (s : String)                      -- the script text the case starts from
   | panic (op : String)
   deriving Inhabited
 
@@ -150,13 +150,14 @@ structure SpecState where
   pipe0 : Option (String × String) := none
   dead : Bool := false             -- the original input was rejected / defines no task: nothing is demanded
   script : Bool := false
+  src : String := ""
 
 /-- one step of the spec; `some (clause, detail)` = the property is false of this history -/
 def specStep (st : SpecState) (ev : Ev) : SpecState × Option (String × String) :=
   if st.dead then (st, none) else
   match ev with
   | .panic op => (st, some ("no-panic", op))
-  | .built => (st, none)
+  | .source s => ({ st with src := s }, none)
   | .tree via t =>
     let isFirst := st.orig.isNone && (via == "parse" || via == "script" || via == "build")
     if isFirst then
@@ -201,6 +202,7 @@ structure Failure where
   got : Option T := none
   prevText : Option String := none
   gotText : Option String := none
+  src : String := ""
 
 /-! ### Recorded deviations (findings/C13.txt). Each is a decidable predicate on what was observed; a failure
 that no clause explains stays a violation. -/
@@ -268,8 +270,40 @@ def devIntMin64 (f : Failure) : Bool :=
   | some o => hasMinInt64 o
   | none => false
 
+def mentions (s pat : String) : Bool := (s.splitOn pat).length > 1
+
+/-- `pjson-barrier`: pipeline JSON cannot be read back when the task has a barrier node
+("unknown function type barrier"). -/
+def devPjsonBarrier (f : Failure) : Bool :=
+  f.clause == "pipeline-identical" && f.detail == "pjson:no-pipeline" && mentions f.src "|barrier("
+
+/-- `pjson-chain-after-from`: pipeline JSON cannot be read back when a where / groupBy NODE is chained to a
+from node ("parent node does not have where clause but is *pipeline.FromNode"). -/
+def devPjsonFromChain (f : Failure) : Bool :=
+  f.clause == "pipeline-identical" && f.detail == "pjson:no-pipeline" &&
+    (mentions f.src "|where(" || mentions f.src "|groupBy(")
+
+/-- `pjson-sample`: reading the JSON of a sample node panics ("must pass int64 or duration to new sample node"). -/
+def devPjsonSample (f : Failure) : Bool :=
+  f.clause == "no-panic" && f.detail == "pjson" && mentions f.src "|sample("
+
+/-- `ptick-join`: pipeline/tick dereferences nil when it renders a join node. -/
+def devPtickJoin (f : Failure) : Bool :=
+  f.clause == "no-panic" && f.detail == "ptick" && mentions f.src "|join("
+
+/-- `ptick-zero-arg`: pipeline/tick drops a zero-valued positional argument when it renders a node
+(holtWinters('value', 3, 0, 1w) becomes holtWinters('value', 3, 1w), which is not a valid call). -/
+def devPtickZeroArg (f : Failure) : Bool :=
+  f.clause == "pipeline-identical" && (f.detail == "ptick-dot:no-pipeline" || f.detail == "ptick-dot:properties") &&
+    mentions f.src "|holtWinters("
+
 def deviationOf (f : Failure) : Option String :=
   if devJsonInt53 f then some "json-int53"
+  else if devPtickZeroArg f then some "ptick-zero-arg"
+  else if devPjsonBarrier f then some "pjson-barrier"
+  else if devPjsonFromChain f then some "pjson-chain-after-from"
+  else if devPjsonSample f then some "pjson-sample"
+  else if devPtickJoin f then some "ptick-join"
   else if devIntMin64 f then some "int-min64"
   else if devMultilineCreep f then some "multiline-creep"
   else none
@@ -284,7 +318,7 @@ def specRun (evs : List Ev) : List String × Option Failure :=
       | (st', some (c, d)) =>
         let f : Failure := { clause := c, detail := d, orig := st.orig,
                              got := (match e with | .tree _ t => t | _ => none),
-                             prevText := st.lastText,
+                             prevText := st.lastText, src := st.src,
                              gotText := (match e with | .text _ s => some s | _ => none) }
         match deviationOf f with
         | some k =>
